@@ -1049,7 +1049,9 @@ class HistogramBase(abc.ABC):
             # (all computed before the first assignment: a refused quotient changes nothing)
             new_frequencies = self.frequencies / other
             new_errors2 = self.errors2 / other2
-            new_missed = np.asarray(self._missed / other, dtype=self._missed.dtype)
+            new_missed = self._missed / other
+            if new_missed.dtype == object:  # (e.g. a Fraction as divisor)
+                new_missed = new_missed.astype(self._missed.dtype)
             reciprocal = 1 / other
             self.frequencies = new_frequencies
             self.errors2 = new_errors2
